@@ -39,6 +39,11 @@ CLAIMED = {
   note="Trusted: gowp, go/ssa, solvers; strings.Count/LastIndex per documentation; ottoError.describe (fmt) trusted; compiled node trees immutable (proved syntactically as a frame obligation).",
   technique="contract-based deductive verification: loop invariants for the trace limit, at_call state assertions, postconditions over go/ssa VCs discharged by z3/cvc5",
   ref="6 C19"),
+ "C16": dict(
+  text="Proof, for every JavaScript number (all doubles and every Go integer payload) and every numeric target kind, that the two numeric conversion kernels of the bridge hand Go exactly the number or fail: convertNumeric (Go function parameters) returns a value of the parameter's kind numerically equal to the number or throws RangeError/TypeError - no truncated fraction, wrap-around or sign change for any of the ten integer widths; Value.toReflectValue (stores into bridged slices, arrays, maps) boxes an integer only when it equals the number (NaN, fractions of either sign, 2^63 and 2^64 are rejected); Value.export returns primitive payloads unchanged; exactly the names starting with A..Z are exported. Element-wise construction of slices/maps/structs, arity checks and method values (all inside reflect) are not covered; failed conversions on container stores surface as Go panics (known finding).",
+  note="Trusted: gowp, go/ssa, solvers, amd64 float->int table. The reflect package is an assumed library: ValueOf/Kind/Int/Uint/Float/Zero/OverflowInt/OverflowUint/OverflowFloat/Convert per their documentation (abstract view rv-int/rv-uint/rv-float/rv-kind, listed in the evidence); math.Modf per documentation. One defect fixed (silent truncation in toReflectValue), one recorded.",
+  technique="contract-based deductive verification: exactness postconditions and at_call assertions over an abstract model of reflect.Value, VCs over go/ssa discharged by z3/cvc5",
+  ref="6 C16"),
  "C17": dict(
   text="Proof, per step of the graph cloner, of what Copy() copies, clones and never shares: cloner.object memoises (one copy per original object, entries never change); value/property/dclProperty/valueArray results are the memo-relational copy of their argument (primitives identical, every object reference the memo's copy, accessor sides cloned exactly when present, attributes equal); objectClone gives the copy the class, flags and class table of the original, the copy's runtime, the prototype through the memo, a freshly allocated property map whose entries are copies of the original's entries and a fresh property-order array with the same names in order, and clones the bound-function/arguments/closure payloads; the three environment-record clones and argumentsObject.clone likewise; runtime.clone replaces every well-known object position by position by its own copy and carries limits over; Copy returns a different Otto on a different runtime without the interrupt channel. Frame clauses prove that no step writes any pre-existing object, environment record, runtime, property table or array of the original (isolation at the moment of copying). Every function reachable through the objectClass.clone slot and the stasher.clone interface is proved against the slot contract (closed-world slotimpl obligation). Observational equivalence of arbitrary later scripts and completeness of map iteration are not covered.",
   note="Trusted: gowp, go/ssa, solvers. Assumed heap invariants (assumes clauses, listed in evidence): class tables installed, stored properties hold Value or propertyGetSet, object references in Values non-nil, objectStash.object non-nil, well-known objects installed. One defect found and fixed (Copy panicked on closures of functions with a parameter named arguments).",
